@@ -208,27 +208,29 @@ class World(object):
         routine again: 'identical arguments and seed' are identical *values* - the result must equal that of a call on a fresh
         array with the same contents (nothing may survive inside the library between calls)"""
         args, kw = registry.REG[name]['make'](random.Random(aseed))
-        if not args or not isinstance(args[0], np.ndarray) or args[0].ndim != 2 or args[0].shape[0] != args[0].shape[1]:
+        sq = [i for i, a in enumerate(args) if isinstance(a, np.ndarray) and a.ndim >= 2 and a.shape[0] == a.shape[1]]
+        if not sq:
             return
-        A1 = args[0]
-        n = len(A1)
+        n = args[sq[0]].shape[0]
         perm = list(range(n))
         random.Random(aseed ^ 0x5a5a).shuffle(perm)
-        A2 = A1[np.ix_(perm, perm)].copy()
-        buf = A1.copy()
+        # second data set: the same arrays with the nodes renumbered (same shapes, same multiset of entries)
+        second = [a[np.ix_(perm, perm)].copy() if (i in sq and a.shape[0] == n) else (a.copy() if isinstance(a, np.ndarray) else a) for i, a in enumerate(args)]
+        bufs = [a.copy() if isinstance(a, np.ndarray) else a for a in args]
         g0 = gstate()
 
-        def run(first):
-            a = (first,) + tuple(x.copy() if isinstance(x, np.ndarray) else x for x in args[1:])
+        def run(arglist):
             k2 = {k: (v.copy() if isinstance(v, np.ndarray) else v) for k, v in kw.items()}
             try:
-                return ('value', registry.call(name, a, k2, seed=s))
+                return ('value', registry.call(name, tuple(arglist), k2, seed=s))
             except Exception as e:
                 return ('raised', type(e).__name__, str(e)[:160])
-        run(buf)                     # first call on the caller's buffer
-        buf[...] = A2                # refill in place: same object, same shape, same multiset of entries
-        r_buf = run(buf)
-        r_fresh = run(A2.copy())
+        run(bufs)                                   # first call on the caller's buffers
+        for b, a2 in zip(bufs, second):             # refill in place: same objects, same shapes
+            if isinstance(b, np.ndarray):
+                b[...] = a2
+        r_buf = run(bufs)
+        r_fresh = run([a.copy() if isinstance(a, np.ndarray) else a for a in second])
         self._check_untouched(g0, name, 'calls on a re-used buffer')
         self.bump('buffer_reuse_pairs')
         if not same(r_buf, r_fresh):
